@@ -249,7 +249,7 @@ theorem signals_spec (E : Env) (S : Schema) (old : Elem) (x : Input) (out : SetO
         all_goals simp at h
     | list xs => simp [setElem] at h
     | dict ps => simp [setElem] at h
-  | joined sep prune k =>
+  | joined sep sp prune k =>
     simp only [setElem] at h
     split at h
     · simp at h
